@@ -15,6 +15,7 @@ import (
 	"perun.network/go-perun/channel/persistence/keyvalue"
 	"perun.network/go-perun/wallet"
 	"perun.network/go-perun/wire"
+	"polycry.pt/poly-go/sortedkv/memorydb"
 	"verif/harness/tla"
 )
 
@@ -145,7 +146,58 @@ func (s *storeRun) exec(a *tla.Action) error {
 	case "Remove":
 		id := s.env.envs[c].Params.ID()
 		delete(s.live, c)
-		return s.pr.ChannelRemoved(bg, id)
+		s.db.Reset()
+		if err := s.pr.ChannelRemoved(bg, id); err != nil {
+			return err
+		}
+		return s.torn(c)
+	}
+	return nil
+}
+
+// torn: the process stops between two write units of the operation on channel c that has just completed (the recorded
+// intermediate contents of the store). Whatever then becomes of c - operations on one channel never change what is
+// restored for another: every OTHER live channel is restored, with its own data, by RestoreChannel and by RestorePeer
+// of each of its peers.
+func (s *storeRun) torn(c int) error {
+	units := s.db.Units
+	for k := 0; k+1 < len(units); k++ {
+		db2 := memorydb.NewDatabase()
+		for key, v := range units[k] {
+			if err := db2.Put(key, v); err != nil {
+				return err
+			}
+		}
+		pr2 := keyvalue.NewPersistRestorer(db2)
+		for o, lc := range s.live {
+			if o == c {
+				continue
+			}
+			id := s.env.envs[o].Params.ID()
+			ch, err := pr2.RestoreChannel(bg, id)
+			if err != nil {
+				return fmt.Errorf("torn: the process stops after write unit %d of %d of the operation on channel %d: RestoreChannel(%d) fails: %v", k+1, len(units), c, o, err)
+			}
+			if d := cmpRestored(ch, lc.run.M, lc.peers, lc.parent); d != "" {
+				return fmt.Errorf("torn: the process stops after write unit %d of %d of the operation on channel %d: RestoreChannel(%d): %s", k+1, len(units), c, o, d)
+			}
+			for _, peer := range lc.peers {
+				it, err := pr2.RestorePeer(peer)
+				if err != nil {
+					return fmt.Errorf("torn: RestorePeer after a torn operation on channel %d: %v", c, err)
+				}
+				found := false
+				for it.Next(bg) {
+					if it.Channel().ID() == id {
+						found = cmpRestored(it.Channel(), lc.run.M, lc.peers, lc.parent) == ""
+					}
+				}
+				_ = it.Close()
+				if !found {
+					return fmt.Errorf("torn: the process stops after write unit %d of %d of the operation on channel %d: RestorePeer of a peer of the untouched live channel %d does not yield it (with its own data)", k+1, len(units), c, o)
+				}
+			}
+		}
 	}
 	return nil
 }
